@@ -24,13 +24,13 @@ COMMON = [P + "facts_ok", P + "engine_is_spec"]
 PROPS = {
  "C01": {
   "module": "Zog.Props.C01",
-  "theorems": COMMON + [P + "C01." + t for t in ["success_means_valid_spec", "success_means_valid", "prim_no_issue_sat", "complex_tests_hold", "success_means_every_visit_clean", "visits_only_append", "engine_success_iff"]],
+  "theorems": COMMON + [P + "C01." + t for t in ["success_means_valid_spec", "success_means_valid", "success_means_valid_all", "validU_at_prim", "prim_no_issue_sat", "complex_tests_hold", "success_means_every_visit_clean", "visits_only_append", "engine_success_iff"]] + ["Zog.Spec.validU_of_clean", "Zog.Spec.proc_cleanLocal"],
   "streams": [eng(2500, 150000), eng(2000, 100000, "catch"), eng(2500, 100000, "nearsuccess"), eng(2000, 100000, "retype")],
   "trusted_base": ENGINE_TB, "assumptions": ENGINE_ASSUME,
  },
  "C02": {
   "module": "Zog.Props.C02",
-  "theorems": COMMON + [P + "C02." + t for t in ["all_failing_tests_reported", "issue_code_and_path", "satisfied_no_issue", "missing_required_one_issue", "uncoercible_one_issue", "slice_uncoercible", "struct_uncoercible", "nil_iff_no_issue", "no_issue_iff_no_violation_spec", "no_issue_iff_no_violation", "violation_is_reported", "no_violation_at_prim", "engine_reports_spec_issues"]] + ["Zog.Spec.clean_iff", "Zog.Spec.noViolFields_iff", "Zog.Spec.primBody_clean_iff"],
+  "theorems": COMMON + [P + "C02." + t for t in ["all_failing_tests_reported", "issue_code_and_path", "satisfied_no_issue", "missing_required_one_issue", "uncoercible_one_issue", "slice_uncoercible", "struct_uncoercible", "nil_iff_no_issue", "no_issue_iff_no_violation_spec", "no_issue_iff_no_violation", "no_issue_iff_no_violation_all", "violation_is_reported", "no_violation_at_prim", "engine_reports_spec_issues"]] + ["Zog.Spec.clean_iff", "Zog.Spec.noViolFields_iff", "Zog.Spec.primBody_clean_iff", "Zog.Spec.cleanU_iff"],
   "streams": [eng(3000, 150000), eng(2000, 100000, "catch"), eng(1200, 60000, "deep")],
   "trusted_base": ENGINE_TB, "assumptions": ENGINE_ASSUME,
  },
@@ -82,7 +82,7 @@ PROPS = {
  },
  "C09": {
   "module": "Zog.Props.C09",
-  "theorems": COMMON + [P + "C09." + t for t in ["visit_order_is_permutation", "visit_order_same_length", "visit_order_mem", "engine_is_spec_for_every_order", "single_field_order_independent", "C09_partial_spec", "C09_partial", "success_order_independent", "full_statement_false"]],
+  "theorems": COMMON + [P + "C09." + t for t in ["visit_order_is_permutation", "visit_order_same_length", "visit_order_mem", "engine_is_spec_for_every_order", "single_field_order_independent", "C09_partial_spec", "C09_partial", "success_order_independent", "success_order_independent_all", "full_statement_false"]] + ["Zog.Spec.proc_success_order_indep", "Zog.Spec.fieldLoop_perm_clean"],
   "streams": [st("order", 2500, 60000), eng(2000, 60000)],
   "trusted_base": ENGINE_TB, "assumptions": ENGINE_ASSUME,
  },
@@ -158,7 +158,7 @@ PROPS = {
  },
  "C20": {
   "module": "Zog.Props.C20",
-  "theorems": [P + "C20." + t for t in ["lenMin_spec", "lenMax_spec", "lenEq_spec", "len_spec", "len_boundaries", "cmpInt_spec", "cmp_other_type", "float_specials", "oneOf_spec", "sliceContains_spec", "hasPrefix_spec", "hasSuffix_spec", "contains_spec", "containsUpper_spec", "containsDigit_spec", "special_ranges_are_punct", "containsSpecial_spec", "non_ascii_not_special", "time_zone_ignored", "time_spec", "uuid_length"]],
+  "theorems": [P + "C20." + t for t in ["lenMin_spec", "lenMax_spec", "lenEq_spec", "len_spec", "len_boundaries", "cmpInt_spec", "cmp_other_type", "float_specials", "oneOf_spec", "sliceContains_spec", "hasPrefix_spec", "hasSuffix_spec", "contains_spec", "containsUpper_spec", "containsDigit_spec", "special_ranges_are_punct", "containsSpecial_spec", "non_ascii_not_special", "time_zone_ignored", "time_spec", "uuid_pattern_regenerated", "email_pattern_regenerated", "uuid_regex_is_grammar", "email_regex_is_grammar", "email_model_is_grammar", "uuid_length"]] + ["Zog.Rx.reach_iff_word", "Zog.Rx.chain_run", "Zog.Rx.wd_emailBody", "Zog.Rx.anchored_search"],
   "streams": [st("preds", 1500, 60000)],
   "trusted_base": ["modelled, not verified: lean/Zog/Preds.lean mirrors the predicate inside every built-in test (internals/tests.go, string.go, time.go, slices.go)",
                    "external: Go regexp (Email/UUID regex vs the recognisers isEmail/isUUID is validated by the exhaustive stream, not proved), net/url (URL) and user regexps (Match) are compared with the standard library called directly"],
@@ -166,7 +166,7 @@ PROPS = {
  },
  "C19": {
   "module": "Zog.Props.C19",
-  "theorems": COMMON + [P + "C19." + t for t in ["no_schema_writes", "validate_prim_frame", "second_run_same", "slice_default_is_copied"]],
+  "theorems": COMMON + [P + "C19." + t for t in ["no_schema_writes", "validate_prim_frame", "default_copy_is_deep", "default_out_of_reach", "write_frame", "shallow_copy_shares_witness", "slice_default_is_copied"]] + ["Zog.Alias.deepCopy_fresh", "Zog.Alias.deepCopy_shape"],
   "streams": [st("alias", 2500, 100000), eng(1500, 50000), eng(1500, 50000, "prepop"), eng(1500, 50000, "nested"), eng(1500, 50000, "retype"), st("front", 400, 10000)],
   "trusted_base": ENGINE_TB + ["Go memory aliasing is not expressible in the value model: destination/schema sharing is decided by the S-alias stream on the real code (second-run equality, input snapshots) and the go/ast fact schemaWrites = []"],
   "assumptions": ENGINE_ASSUME,
